@@ -257,3 +257,37 @@ Lemma elaboration_lemma cs g c d0 tr st full :
 Proof.
   intro H. split; [exact (run_opt_sound cs g c tr _ _ _ H) | exact (run_opt_erase cs g c tr _ _ _ H)].
 Qed.
+
+(* platform selection: exactly the first matching entry *)
+Lemma select_manifest_spec entries want n :
+  select_manifest entries want = Some n <->
+  exists l1 p l2, entries = l1 ++ (n, p) :: l2 /\ plat_match p want = true /\
+                  forall m q, In (m, q) l1 -> plat_match q want = false.
+Proof.
+  induction entries as [|[m q] r IH]; simpl.
+  - split; [discriminate|]. intros [l1 [p [l2 [H _]]]]. destruct l1; discriminate.
+  - destruct (plat_match q want) eqn:E.
+    + split.
+      * intro H. injection H as <-. exists [], q, r. repeat split; auto. intros ? ? [].
+      * intros [l1 [p [l2 [H [Hp Hn]]]]]. destruct l1 as [|[m' q'] l1]; simpl in H; inversion H; subst.
+        -- reflexivity.
+        -- rewrite (Hn m' q' (or_introl eq_refl)) in E. discriminate.
+    + rewrite IH. split.
+      * intros [l1 [p [l2 [-> [Hp Hn]]]]]. exists ((m, q) :: l1), p, l2. repeat split; auto.
+        intros m' q' [H|H]; [inversion H; subst; exact E | eauto].
+      * intros [l1 [p [l2 [H [Hp Hn]]]]]. destruct l1 as [|[m' q'] l1]; simpl in H; inversion H; subst.
+        -- rewrite Hp in E. discriminate.
+        -- exists l1, p, l2. repeat split; auto. intros m0 q0 H0. apply (Hn m0 q0). now right.
+Qed.
+
+Lemma select_manifest_none entries want :
+  select_manifest entries want = None <-> forall m q, In (m, q) entries -> plat_match q want = false.
+Proof.
+  induction entries as [|[m q] r IH]; simpl.
+  - split; auto. intros _ ? ? [].
+  - destruct (plat_match q want) eqn:E.
+    + split; [discriminate|]. intro H. rewrite (H m q (or_introl eq_refl)) in E. discriminate.
+    + rewrite IH. split.
+      * intros H m' q' [H1|H1]; [inversion H1; subst; exact E | eauto].
+      * intros H m' q' H1. apply (H m' q'). now right.
+Qed.
